@@ -311,6 +311,19 @@ func (w *World) pickContainer(root *Node, descendPct int) *Node {
 	return n
 }
 
+// mapValueLimit returns the exact inline limit of a value stored under the given key (keys above the key limit are
+// stored as a reference).
+func mapValueLimit(key *Node) uint32 {
+	th := atree.VerifThresholds()
+	ks := uint32(szSlabIDStorable)
+	if st, ok := scalarValue(key).(atree.Storable); ok && st.ByteSize() <= th.MaxInlineMapKeySize {
+		ks = st.ByteSize()
+	} else if key.Kind == KSome {
+		ks = 8
+	}
+	return atree.VerifMaxInlineMapValueSize(ks)
+}
+
 // limitFor returns the inline limit that applies to values stored directly in container n.
 func limitFor(n *Node) uint32 {
 	th := atree.VerifThresholds()
@@ -463,7 +476,7 @@ func (w *World) Step(root *Node, ph Phase, cfg *HistCfg) error {
 	switch {
 	case roll < ph.Insert:
 		k := w.genKey(n, w.prof.KeySpace)
-		v, err := w.genValue(depthLeft, atree.VerifMaxInlineMapValueSize(8), n.Addr)
+		v, err := w.genValue(depthLeft, mapValueLimit(k), n.Addr)
 		if err != nil {
 			return err
 		}
@@ -473,7 +486,7 @@ func (w *World) Step(root *Node, ph Phase, cfg *HistCfg) error {
 		if k == nil {
 			return nil
 		}
-		v, err := w.genValue(depthLeft, atree.VerifMaxInlineMapValueSize(8), n.Addr)
+		v, err := w.genValue(depthLeft, mapValueLimit(k), n.Addr)
 		if err != nil {
 			return err
 		}
